@@ -250,6 +250,7 @@ class Compiler:
         on the way out abandons the return and has to pop it.
         """
         scopes = self.loop_stack
+        held = pending_slots  # operand slots still on the stack while a finally block runs
         for i in range(len(scopes) - 1, -1, -1):
             scope = scopes[i]
             if scope is target:
@@ -261,21 +262,25 @@ class Compiler:
                 if scope.handler_active:
                     self._emit(OpCode.TRY_END)
                 if target is not None:
-                    # (return needs no pops: RETURN discards the frame's operands)
                     for _ in range(scope.stack_slots):
                         self._emit(OpCode.POP)
+                else:
+                    # (return needs no pops: RETURN discards the frame's operands)
+                    held += scope.stack_slots
                 if scope.finalizer and not scope.in_finalizer:
                     # The finally block runs outside its own try statement
                     self.loop_stack = scopes[:i]
-                    if pending_slots:
+                    if held:
                         self.loop_stack.append(
-                            TryContext(handler_active=False, stack_slots=pending_slots)
+                            TryContext(handler_active=False, stack_slots=held)
                         )
                     self._compile_statement(scope.finalizer)
                     self.loop_stack = scopes
             elif target is not None:
                 for _ in range(scope.stack_slots):
                     self._emit(OpCode.POP)
+            else:
+                held += scope.stack_slots
 
     def _new_loop_context(self, **kwargs) -> LoopContext:
         """Create the context of a loop statement, claiming the labels put on it."""
